@@ -28,7 +28,7 @@ CHECKS = {
          "DESIGN.md §3 C14"),
  "C15": ("bounded exhaustive enumeration of a numeric lattice (location pairs incl. antipodes, location x bearing x distance) on the real geo primitives vs an independent vector formulation",
          "Every ordered pair of 84 (308) locations incl. poles, near-pole, antimeridian and each location's exact antipode: distance range, symmetry, zero, agreement with the vector formulation; every location x 26 (362) bearings x 12 (19) distances: destination in range, distance back = d (max(1 mm, 1e-6 d)), initial bearing recovered (conditioning-scaled) away from poles/antipode; haversine monotone and metre round trip along the sorted distance alphabet; normalisation idempotent and haversine-preserving; semicircle round trip on a 65,537-point grid.",
-         "Decided on the numeric lattice only. Known finding: DestinationPoint within ~5 m of a pole (exact inputs listed). Trusted: verif/mc/sphere.",
+         "Decided on the numeric lattice only. (The near-pole defect of DestinationPoint found here was repaired in 550d452.) Trusted: verif/mc/sphere.",
          "DESIGN.md §3 C15"),
  "C09": ("bounded exhaustive enumeration of ordered object pairs over a pool of all 12 kinds on the real predicates; algebraic laws and representation transparency (oracle-free)",
          "Every ordered pair of a pool (1,100 quick / 3,500 thorough objects: lattice points as Point/SimplePoint/Feature, all rectangles with their 5-point polygons, 2- and 3-position lines, simple rings, polygons with holes, empties, Multi*/GeometryCollection/FeatureCollection/Feature wraps incl. nested, circles with probes between the 64-gon and the disc and a high-latitude circle): Within/Contains duality, Intersects symmetry, contains => intersects and rect cover, intersects => rects meet, reflexivity, Feature = geometry, Rect = 5-point Polygon, SimplePoint = Point, leaf object = geometry-level predicate.",
@@ -83,6 +83,27 @@ CHECKS = {
          "Oracle-free trigger; the side that is wrong is identified with verif/mc/exact and matched (exact input) against the known-finding sets.",
          "DESIGN.md §3 C12"),
 }
+
+# families added after the adversarial seed rounds (appended to the level text)
+EXTRA = {
+ "C19": " Beyond the lattice: segments anchored at 3 origins with far endpoints over a 65x65 (129x129) grid x every lattice point on or next to them (unit scale, half scale, shifted to +-2^20); near-miss / near-hit pairs with coordinates up to 2^20 in 8 orientations; near-parallel family (directions M(P,Q)+e1 and M(P,Q)+e2, 12 primitive (P,Q), lengths M to 2^20, e1,e2 over [-2,2]^2, crossing / ending at / starting next to a common point, every offset in [-1,1]^2, both orders).",
+ "C18": " Near-parallel family: rings whose first two edges are M(P,Q)+e1 and M(P,Q)+e2 (12 primitive directions, 30 lengths to 2^26 lattice units of 1/128, magnitude <= 2^20, e1,e2 over [-2,2]^2) closed as a triangle or through 6 fourth vertices, every rotation, both directions, with and without closing vertex; flags compared where every float product and partial sum of the library is exact.",
+ "C01": " Larger scopes: rings of 40-100 vertices (comb, staircase, irregular 48-point star, sawtooth, spiral; also densified past the index threshold and as holes) probed at every integer point; right triangles with hypotenuse differences 11..57 probed at every lattice point.",
+ "C02": " Larger scopes: two-hole x one-hole and three-hole polygons, 16-position discs in concave outers, the 40-100-vertex rings x ~20,000 coarse-grid partners, slanted-triangle contact pairs, near-miss lines passing a line end / square corner at 1/N for N up to 2^20, near-parallel long lines and sliver triangles (orientation-predicate oracle).",
+ "C03": " Larger scopes as in C02 (multi-hole polygons, 16-position inners over concave outers, 40-100-vertex rings, slanted-triangle contact pairs).",
+ "C12": " Slanted-triangle contact pairs (hypotenuse differences 11..57) under every transform.",
+ "C04": " 16 layout families incl. fixed-LCG irregular scatters, mixed magnitudes, +-1.7e308 and a decimal family with vertices bit-exactly on candidate quadtree midlines; queries exactly on every candidate midline (both formulas, depth 0-2).",
+ "C05": " Documents with thousands of positions / hundreds of holes and children and coordinates near the top of the float64 range under every index option.",
+ "C06": " Plus generated families: documents with thousands of positions / hundreds of children, 1,545 number spellings (1-19 digits, the band above 2^53, exponent forms) as Point / LineString / Polygon, member texts combining insignificant whitespace with escaped quotes, and the string alphabet (168 units: printable ASCII, DEL, all escapes, \\u escapes of all controls, surrogate pairs and lone surrogates, raw 2-4-byte UTF-8, invalid UTF-8) alone, between letters and in every ordered pair as member key / value / id / property (57,792 documents).",
+ "C07": " Plus the generated families of C06 (large documents, number spellings, member texts, string alphabet), each also truncated by a byte, extended by a byte and wrapped in whitespace.",
+ "C08": " Seeds with 17-70 positions (past the index thresholds), big-geometry and decimal-midline documents with probes exactly on candidate midlines.",
+ "C09": " Big objects: zigzag LineStrings and Polygons with 33..65,538 segments (either side of the index thresholds and of the 1/2/4-byte segment-number boundaries) under QuadTree / RTree / no index x 10 probe objects at ~25 first / last / boundary-numbered segments: the same laws, independence of the index kind, exact point membership.",
+ "C10": " Children and probes near the top of the float64 range (1e308), nested-collection probes, ForEach model with every stop position.",
+ "C13": " Dense grid: 13 mantissas x 11 decades of radii (1 mm .. 10,000 km) x a 13 x 10 (24 x 18) grid of centres incl. near-poles and the antimeridian, probes at +-1.5 / +-2.5 / +-4 mm from the rim.",
+ "C15": " Pole approach: travel along (and within 1e-6..1e-3 degree of) the meridian ending from 10 m (100 m) short of to beyond the pole in 17 (29) steps, from 9 (18) latitudes on both hemispheres x 5 longitudes.",
+ "C16": " The pool includes objects past the default thresholds (70-hole polygon, 70-feature collection, 100-position line, second circle) with cheap point calls; objects are rebuilt fresh for every execution so that lazily built state is exercised.",
+ "C17": " Parsed documents include the member-text family and the string alphabet of C06 (every unit and ordered pair of units as member key / value).",
+}
 PENDING_REASON = "check not built yet in this round (planned, see DESIGN.md §7); not claimed until its command exists"
 
 checks, na = [], []
@@ -90,6 +111,7 @@ for p in props:
     pid = p["id"]
     if pid in CHECKS:
         tech, text, note, ref = CHECKS[pid]
+        text += EXTRA.get(pid, "")
         checks.append({
             "property_id": pid,
             "quick_cmd": f"./run.sh {pid} quick",
